@@ -235,20 +235,14 @@ theorem aggregateStatus_active (l : List TStatus) :
 theorem leafStatus_active (c : Bool) (l : Launch) : leafStatus c l = .ACTIVE ↔ l = .ok := by
   cases l <;> cases c <;> simp [leafStatus]
 
-/-- DEPLOY succeeds iff there is at least one role, EVERY task — critical or not — became active, and the
-    notification was not dropped. -/
-theorem deployBody_ok (ls : List (Bool × Launch)) (calls : Nat) (lost : Bool) :
-    deployBody ls calls lost = .ok ↔ lost = false ∧ (ls ≠ [] ∨ calls ≠ 0) ∧ ∀ l ∈ ls, l.2 = .ok := by
-  unfold deployBody rootStatus
-  have : (if aggregateStatus (ls.map (fun l => leafStatus l.1 l.2) ++ List.replicate calls TStatus.ACTIVE) = TStatus.ACTIVE
-            ∧ lost = false then BodyRes.ok else BodyRes.error) = BodyRes.ok ↔
-      (aggregateStatus (ls.map (fun l => leafStatus l.1 l.2) ++ List.replicate calls TStatus.ACTIVE) = TStatus.ACTIVE
-        ∧ lost = false) := by
-    split <;> simp_all
-  rw [this, aggregateStatus_active]
+/-- The root is ACTIVE iff there is at least one role and EVERY task — critical or not — became active. -/
+theorem rootStatus_active (ls : List (Bool × Launch)) (calls : Nat) :
+    rootStatus ls calls = .ACTIVE ↔ (ls ≠ [] ∨ calls ≠ 0) ∧ ∀ l ∈ ls, l.2 = .ok := by
+  unfold rootStatus
+  rw [aggregateStatus_active]
   constructor
-  · rintro ⟨⟨hne, hall⟩, hl⟩
-    refine ⟨hl, ?_, ?_⟩
+  · rintro ⟨hne, hall⟩
+    refine ⟨?_, ?_⟩
     · cases ls with
       | cons _ _ => exact Or.inl (by simp)
       | nil =>
@@ -258,8 +252,8 @@ theorem deployBody_ok (ls : List (Bool × Launch)) (calls : Nat) (lost : Bool) :
     · intro l hl
       have := hall (leafStatus l.1 l.2) (List.mem_append_left _ (List.mem_map.2 ⟨l, hl, rfl⟩))
       exact (leafStatus_active _ _).1 this
-  · rintro ⟨hl, hne, hall⟩
-    refine ⟨⟨?_, ?_⟩, hl⟩
+  · rintro ⟨hne, hall⟩
+    refine ⟨?_, ?_⟩
     · rcases hne with h | h
       · simp [h]
       · simp [h]
@@ -268,6 +262,54 @@ theorem deployBody_ok (ls : List (Bool × Launch)) (calls : Nat) (lost : Bool) :
       rcases hs with ⟨l, hl, rfl⟩ | ⟨_, rfl⟩
       · exact (leafStatus_active _ _).2 (hall l hl)
       · rfl
+
+theorem deployAwaits_iff (ls : List (Bool × Launch)) (calls : Nat) :
+    deployAwaits ls calls = true ↔ (ls ≠ [] ∨ calls ≠ 0) := by
+  cases ls <;> simp [deployAwaits]
+
+theorem deployAwaits_false (ls : List (Bool × Launch)) (calls : Nat) :
+    deployAwaits ls calls = false ↔ (ls = [] ∧ calls = 0) := by
+  cases ls <;> simp [deployAwaits]
+
+/-- DEPLOY succeeds iff nothing was asked to become active (and the code does not wait then), or there is at least one
+    role, EVERY task — critical or not — became active, and the loop heard of it. -/
+theorem deployBody_ok (cfg : Cfg) (ls : List (Bool × Launch)) (calls : Nat) (lost : Bool) :
+    deployBody cfg ls calls lost = .ok ↔
+      (cfg.deployEmptyIsSuccess = true ∧ ls = [] ∧ calls = 0) ∨
+      (cfg.deployHears lost = true ∧ (ls ≠ [] ∨ calls ≠ 0) ∧ ∀ l ∈ ls, l.2 = .ok) := by
+  unfold deployBody
+  cases he : cfg.deployEmptyIsSuccess <;> cases ha : deployAwaits ls calls
+  · -- legacy, empty workflow: the root is never ACTIVE
+    have hemp := (deployAwaits_false ls calls).1 ha
+    have hr : rootStatus ls calls ≠ .ACTIVE := by
+      rw [Ne, rootStatus_active]; rintro ⟨h | h, _⟩
+      · exact h hemp.1
+      · exact h hemp.2
+    obtain ⟨h1, h2⟩ := hemp
+    subst h1; subst h2
+    simp [hr]
+  · have hne := (deployAwaits_iff ls calls).1 ha
+    simp only [Bool.false_and, Bool.false_eq_true, ↓reduceIte, false_and, false_or]
+    rw [← rootStatus_active]
+    constructor
+    · intro h; split at h
+      · rename_i hh; exact ⟨hh.2, hh.1⟩
+      · cases h
+    · rintro ⟨h1, h2⟩; simp [h1, h2]
+  · have hemp := (deployAwaits_false ls calls).1 ha
+    simp [hemp.1, hemp.2]
+  · have hne := (deployAwaits_iff ls calls).1 ha
+    have hnot : ¬ (ls = [] ∧ calls = 0) := by
+      rintro ⟨h1, h2⟩; rcases hne with h | h
+      · exact h h1
+      · exact h h2
+    simp only [Bool.not_true, Bool.and_false, Bool.false_eq_true, ↓reduceIte, true_and, hnot, false_or]
+    rw [← rootStatus_active]
+    constructor
+    · intro h; split at h
+      · rename_i hh; exact ⟨hh.2, hh.1⟩
+      · cases h
+    · rintro ⟨h1, h2⟩; simp [h1, h2]
 
 /-! ### the roster under executor / agent loss -/
 
